@@ -1021,6 +1021,9 @@ func (c *Conn) handlePackets() (wasProcessed bool, _ error) {
 		if c.qlogger != nil && wire.IsLongHeaderPacket(p.data[0]) {
 			datagramID = qlog.CalculateDatagramID(p.data)
 		}
+		// Count the bytes of the datagram for the anti-amplification limit exactly once:
+		// packets that are queued until keys are available run through handleOnePacket a second time.
+		c.sentPacketHandler.ReceivedBytes(p.Size(), p.rcvTime)
 		processed, err := c.handleOnePacket(p, datagramID)
 		if err != nil {
 			return false, err
@@ -1051,8 +1054,6 @@ func (c *Conn) handlePackets() (wasProcessed bool, _ error) {
 }
 
 func (c *Conn) handleOnePacket(rp receivedPacket, datagramID qlog.DatagramID) (wasProcessed bool, _ error) {
-	c.sentPacketHandler.ReceivedBytes(rp.Size(), rp.rcvTime)
-
 	if wire.IsVersionNegotiationPacket(rp.data) {
 		return false, c.handleVersionNegotiationPacket(rp)
 	}
